@@ -27,6 +27,9 @@ META = dict(
          "hook and result-backend failures incl. an outage over consecutive messages / acknowledgements that take time; the worker "
          "configured directly, through the real command line (with further worker options such as the sync-pool size mixed in) or "
          "through the real run_receiver_task); Further family (own random stream): the REAL taskiq.api.run_receiver_task coroutine runs for the whole scenario over a scripted listen() that raises 0..3 times (ConnectionError, RuntimeError, TimeoutError, OSError, EOFError, a client's own class, a falsy exception object, an ExceptionGroup, BrokerError) as the first thing a session does / right after taking a message / while tasks are in flight / while idle, the remaining messages going to the re-started listening; N and wait_tasks_timeout set by the receiver class handed to it, stop = the finish event it gave to listen(); decided by the direct oracles only, every listen() session held to the statement by its own messages; "
+         "further family (recv_props.gen_relisten): ONE Receiver object listens again after listen() failed, mostly while every slot "
+         "was busy - one count over all its sessions (what went down with a failed session's hand-over queue stops counting when the "
+         "next session begins); "
          "non-trivial iff finite A, backlog >= A+P+3 arriving within a burst shorter than the tasks (the worker saturates); "
          "distinct by canonical scenario",
     trusted_base=["model: coq/theories/RecvLTS.v (hand-written LTS of prefetcher / runner / look-ahead / hand-over queue)",
@@ -44,6 +47,10 @@ PROF_LIVE = dict(limited_only=True, backlog=True, stop_p=.1, n_p=.05, ends_p=.05
 # ... the connection drops while the first tasks of a long backlog of valid, slow messages are running
 PROF_LIVE_SAT = dict(limited_only=True, backlog=True, backlog_extra=6, faults=False, live_early=.7, stop_p=.05, n_p=0, ends_p=.05, wtt_p=.05,
                      outage_p=0, aw_p=.03, A_choices=[1, 2, 2, 3, 3, 4], P_choices=[0, 0, 1, 1, 2, 3])
+# one Receiver object that listens again after listen() failed, mostly with every slot busy (recv_props.gen_relisten, mode fault
+# only: the exit of a prefetcher that was stopped hands one prefetch permit too many to a next session - a second listen() after a
+# graceful stop is not promised the bound)
+PROF_RELISTEN = dict(faults=False, outage_p=.05, aw_p=.05, relisten_any_p=.15, relisten_stop_p=0)
 
 
 PROC_TAGS = ("cb.start", "cb.end", "hook.pre", "hook.post", "hook.post_save", "hook.on_error", "hook.aw", "hook.aw.end", "body.in",
@@ -61,6 +68,8 @@ def oracle(sc, obs):
     if not R.limited(sc):
         return out
     f = R.Facts(sc, obs)
+    if f.limit_only:
+        return out          # (one Receiver object listening again after a graceful stop: no claim, see PROF_RELISTEN)
     bound = sc["A"] + sc["P"] + 1
     last, cbended, pending = {}, set(), {}
     for k, e in enumerate(f.raw):
@@ -79,14 +88,20 @@ def oracle(sc, obs):
     # Under run_receiver_task (sc["live"]) "a worker" is read as one listening session (the reading that demands less): the count
     # is kept per session - messages a failed session left unfinished (still running, or dropped with its hand-over queue) are
     # not counted against the session that replaced it.  In an ordinary run there is one session.
+    # ONE Receiver object that listens several times (recv_props.gen_relisten) is one worker over all its sessions: one count -
+    # what an earlier session left running counts on; what went down with a failed session's hand-over queue (taken, never handed
+    # to a callback) stops counting when the next session begins.
+    wkey = (lambda i: 0) if f.same_rcv else f.session_of
     unfin, peak = {}, 0
     when = None
     late = []
     for k, e in enumerate(f.raw):
         if e[1] == "TAKE":
-            unfin[f.session_of(e[2])] = unfin.get(f.session_of(e[2]), 0) + 1
+            unfin[wkey(e[2])] = unfin.get(wkey(e[2]), 0) + 1
+        elif e[1] == "SESSION" and f.same_rcv:
+            unfin[0] = unfin.get(0, 0) - sum(1 for i in f.dropped if f.sess[i] == e[2] - 1)
         for i in fin_at.get(k, []):
-            unfin[f.session_of(i)] = unfin.get(f.session_of(i), 0) - 1
+            unfin[wkey(i)] = unfin.get(wkey(i), 0) - 1
             if e[1] != "cb.end":
                 late.append(i)
         if unfin and max(unfin.values()) > peak:
@@ -147,6 +162,8 @@ def run(ctx):
     scs = [R.gen_scenario(r, PROF if i % 4 else PROF_MIX) for i in range(n)]
     r4 = ctx.sub_rng("gen-live")             # own stream: the scenarios above are what they were
     scs += [R.gen_live(r4, PROF_LIVE_SAT if i % 2 else PROF_LIVE) for i in range(ctx.n(80, 4000))]
+    r6 = ctx.sub_rng("gen-relisten")         # own stream: ONE Receiver object over several listen() sessions
+    scs += [R.gen_relisten(r6, PROF_RELISTEN) for _ in range(ctx.n(30, 1500))]
     broken = explore(ctx, rep, scs, "main")
     if not ctx.quick:
         broken = explore(ctx, rep, R.grid_scenarios(), "grid") or broken
